@@ -387,9 +387,30 @@ def check_receive(ctx, hub, rule="C18.E"):
             self[k] = []
             return self[k]
 
-    def world(script=None):
+    class Lock:
+        """the hub's lock: every release is a point where another thread may run - the k-th release runs the scripted action"""
+        _nqsa_model = True
+
+        def __init__(self):
+            self.releases, self.script, self.busy = 0, {}, False
+
+        def __enter__(self):
+            return self
+
+        def __exit__(self, *a_):
+            self.releases += 1
+            act = self.script.get(self.releases)
+            if act is not None and not self.busy:
+                self.busy = True   # (the other thread's own lock operations are not points of preemption of the first)
+                try:
+                    act()
+                finally:
+                    self.busy = False
+            return False
+
+    def world(script=None, lock=None):
         """script: {sleep number: action} run inside that sleep of the receiver"""
-        o = C.object_from_init(repo, hub, {"_logger": _Log(), "_lock": _Log(), "_messages": DD(), "_recv_callbacks": {}, "_conn_lost_callbacks": {}}, kind="self")
+        o = C.object_from_init(repo, hub, {"_logger": _Log(), "_lock": lock or _Log(), "_messages": DD(), "_recv_callbacks": {}, "_conn_lost_callbacks": {}}, kind="self")
         clock, sleeps = [0.0], [0]
         sc = C.Scenario()
 
@@ -459,6 +480,24 @@ def check_receive(ctx, hub, rule="C18.E"):
             r_ = do_recv(o, sc, B_, block=True, timeout=None)
             if r_ != ("ok", "late") or sleeps[0] != arrive_at:
                 bad.setdefault("emptiness-tested-on-own-queue-each-iteration", f"a message arriving during sleep {arrive_at} of a blocking receive: recv gives {r_} after {sleeps[0]} sleeps")
+        # a send that lands between two critical sections of a receive (after the k-th release of the lock by the receiver): the
+        # receiver still gets the oldest message, and both messages are received exactly once, in order
+        for k_rel in (1, 2, 3):
+            for block_ in (True, False):
+                n += 1
+                lk = Lock()
+                o, sc, sleeps = world(lock=lk)
+                do_send(o, sc, A_, "m1")
+                lk.releases = 0
+                lk.script = {k_rel: (lambda o_=o, sc_=sc: do_send(o_, sc_, A_, "m2"))}
+                first = do_recv(o, sc, B_, block=block_)
+                lk.script = {}
+                if k_rel > lk.releases:
+                    do_send(o, sc, A_, "m2")   # (the receive finished with fewer releases: the send comes after it)
+                rest = [do_recv(o, sc, B_, block=False) for _ in range(3)]
+                got = [first] + rest
+                if [g_[1] for g_ in got if g_[0] == "ok"] != ["m1", "m2"] or got[0] != ("ok", "m1"):
+                    bad.setdefault("returns-the-popped-head", f"'m1' queued, 'm2' sent right after the receiver released the lock for the {k_rel}. time (block={block_}): the receives give {got}; expected 'm1', then 'm2', each once")
         n += 1
         o, sc, sleeps = world()
         r_ = do_recv(o, sc, B_, block=True, timeout=0.25)
